@@ -126,7 +126,16 @@ impl Invocations
 	{
 		// ---- input
 		let input_kind = c.weighted(&[5, 3, 3]);
-		let prog = progen::generate(c, progen::Profile::exec());
+		let mut prog = progen::generate(c, progen::Profile::exec());
+		// sometimes the program also prints bytes that are not UTF-8 (they
+		// must come through `penne run` untouched)
+		if c.chance(1, 4)
+		{
+			if let Some(m) = prog.funcs.iter_mut().find(|f| f.name == "main")
+			{
+				m.body.insert(0, crate::ast::Stmt::Print(vec![crate::ast::Expr::Str(vec![b'<', 0xff, 0xc3, b'>', 0x80, b'\n'])]));
+			}
+		}
 		let mut expected_exec = None;
 		let files: Vec<(String, String)> = match input_kind
 		{
@@ -137,8 +146,18 @@ impl Invocations
 			}
 			1 =>
 			{
-				// invalid program
-				let src = print_program(&prog, Layout::plain(), None);
+				// invalid program (one in three with multi-byte comments, so
+				// that character and byte offsets differ)
+				let src = if c.chance(1, 3)
+				{
+					let mut layout = Layout::plain();
+					layout.comments = 3;
+					print_program(&prog, layout, Some(c))
+				}
+				else
+				{
+					print_program(&prog, Layout::plain(), None)
+				};
 				let k = 1 + c.draw(2);
 				vec![("bad.pn".into(), mutgen::token_faults(c, &src, k))]
 			}
@@ -444,8 +463,10 @@ impl Invocations
 			{
 				if let Some(exp) = &expected_exec
 				{
-					let want = String::from_utf8_lossy(&exp.stdout).to_string();
-					if !stdout.contains(&want)
+					// byte for byte
+					let want: &[u8] = &exp.stdout;
+					let passed = want.is_empty() || ran.stdout.windows(want.len()).any(|w| w == want);
+					if !passed
 					{
 						out.fail("run: program output is not passed through", detail());
 						return Ok(());
@@ -477,6 +498,31 @@ impl Invocations
 			{
 				out.fail(format!("{}: failing compilation does not show its diagnostics", sub), detail());
 				return Ok(());
+			}
+		}
+		// the reports themselves: what the tool prints for each diagnostic is
+		// what the library renders for it from the same files and options
+		if !lib.ok && !silent && color == "never"
+		{
+			for e in lib.raw.iter().take(8)
+			{
+				let rendered = std::panic::catch_unwind(std::panic::AssertUnwindSafe(|| crate::c13::render(e, &files, false, arrows == "ascii")));
+				if let Ok(Ok(bytes)) = rendered
+				{
+					let text = String::from_utf8_lossy(&bytes).to_string();
+					let want: Vec<&str> = text.lines().map(|l| l.trim_end()).filter(|l| !l.is_empty()).collect();
+					let got: Vec<&str> = stderr.lines().map(|l| l.trim_end()).filter(|l| !l.is_empty()).collect();
+					let found = !want.is_empty() && got.windows(want.len()).any(|w| w == &want[..]);
+					if !found
+					{
+						out.fail(
+							format!("{}: the report printed for a diagnostic differs from the library's rendering of it", sub),
+							json!({"argv": argv, "files": crate::c02::files_json(&files), "expected_report": text, "stderr": stderr.chars().take(3000).collect::<String>()}),
+						);
+						return Ok(());
+					}
+					out.class("checked:report-text");
+				}
 			}
 		}
 		if color == "never" && (ran.stdout.contains(&0x1b) || ran.stderr.contains(&0x1b))
@@ -568,12 +614,90 @@ impl Stream for Included
 						);
 					}
 				}
+				if r.stdout.contains(&0x1b) || r.stderr.contains(&0x1b)
+				{
+					out.fail(
+						format!("{:?}: escape sequences with --color=never", args),
+						json!({"argv": argv, "stderr": String::from_utf8_lossy(&r.stderr).chars().take(800).collect::<String>()}),
+					);
+				}
 			}
 		}
 		let _ = std::fs::remove_dir_all(&dir);
 		if ctx.want_sample
 		{
 			out.sample = Some(json!({"argv": argv}));
+		}
+		out
+	}
+}
+
+/// docs/errors.md: "Penne source files must be US-ASCII or UTF-8 encoded" —
+/// a file that is neither is not compiled, wherever the stray byte sits
+struct InvalidEncoding;
+const BAD_BYTES: &[(&str, &[u8])] = &[
+	("a Latin-1 byte in a comment", b"// caf\xe9\nfn main() -> i32\n{\n\treturn: 0\n}\n"),
+	("a Latin-1 byte in a string literal", b"fn main() -> i32\n{\n\tprint!(\"caf\xe9\\n\");\n\treturn: 0\n}\n"),
+	("0xFF in a comment at the end of the file", b"fn main() -> i32\n{\n\treturn: 0\n}\n// \xff"),
+	("a truncated multi-byte character in a comment", b"// \xe2\x82\nfn main() -> i32\n{\n\treturn: 0\n}\n"),
+	("an overlong encoding in a string literal", b"fn main() -> i32\n{\n\tprint!(\"\xc0\xaf\");\n\treturn: 0\n}\n"),
+];
+impl Stream for InvalidEncoding
+{
+	fn name(&self) -> String
+	{
+		"sources-that-are-not-utf-8".into()
+	}
+	fn count(&self, _tier: Tier) -> u64
+	{
+		BAD_BYTES.len() as u64 * 3
+	}
+	fn exhaustive(&self) -> bool
+	{
+		true
+	}
+	fn run(&self, idx: u64, _c: &mut Choices, ctx: &RunCtx) -> CaseOut
+	{
+		let mut out = CaseOut::default();
+		let (what, bytes) = BAD_BYTES[(idx / 3) as usize];
+		let sub = ["emit", "run", "build"][(idx % 3) as usize];
+		let dir = workdir(2_000_000 + idx);
+		let _ = std::fs::write(dir.join("bad.pn"), bytes);
+		let argv: Vec<String> = vec![
+			sub.into(),
+			"bad.pn".into(),
+			"--color=never".into(),
+			"--out-dir".into(),
+			"o".into(),
+			"--backend".into(),
+			"true".into(),
+		];
+		let inv = Invocation {
+			argv: argv.clone(),
+			env: vec![],
+			path_prefix: None,
+		};
+		out.key = idx;
+		out.nontrivial = true;
+		match run(&inv, &dir)
+		{
+			Err(e) => out.fail("harness: cannot run penne", json!({"error": e})),
+			Ok(r) =>
+			{
+				let emitted = dir.join("o").join("bad.pn.ll").exists();
+				if r.status == Some(0) || emitted
+				{
+					out.fail(
+						format!("{}: a source that is not UTF-8 is compiled ({})", sub, what),
+						json!({"argv": argv, "exit": r.status, "emitted_ll": emitted, "stderr": String::from_utf8_lossy(&r.stderr).chars().take(600).collect::<String>()}),
+					);
+				}
+			}
+		}
+		let _ = std::fs::remove_dir_all(&dir);
+		if ctx.want_sample
+		{
+			out.sample = Some(json!({"argv": argv, "what": what}));
 		}
 		out
 	}
@@ -587,7 +711,7 @@ impl Check for C18
 	}
 	fn rule(&self) -> String
 	{
-		"the real `penne` binary (built from /repo with features alpha,llvm-sys) is run in a scratch directory on: generated valid programs, generated programs with 1-2 token faults, and correctly split 2-3 file programs (optionally in a sub-directory) x subcommand {run, emit, build, default build} x random subsets of {--silent, --verbose, --color=never|always|auto, --arrows=ascii|unicode, --out-dir}; backends are generated scripts that record argv/stdin and exit with a chosen status, selected by flag, environment variable (PENNE_BACKEND / PENNE_LLI), config file and/or PATH default in random combinations, or the real lli. Oracle: exit 0 iff compilation (per the library on the same files) and, for build, the backend succeeded; exactly the backend dictated by flag > env > config > default ran and received the linked IR on stdin; no backend runs after a failed compilation; with --out-dir every module has its .pn.ll equal to the library's per-module IR (and accepted by llvm-as/opt on a sample); `run` shows `Output: <status>` unless --silent and passes the program's stdout (== reference interpreter) through; a failing compilation shows its first diagnostic's [Exxx] unless --silent; no ESC byte with --color=never; ASCII-only output with --arrows=ascii on ASCII sources. Plus core:/vendor: arguments with the repository examples. Non-trivial: >= 2 options, or several files, or a failing backend; distinct by (argv, env, files).".into()
+		"the real `penne` binary (built from /repo with features alpha,llvm-sys) is run in a scratch directory on: generated valid programs, generated programs with 1-2 token faults, and correctly split 2-3 file programs (optionally in a sub-directory) x subcommand {run, emit, build, default build} x random subsets of {--silent, --verbose, --color=never|always|auto, --arrows=ascii|unicode, --out-dir}; backends are generated scripts that record argv/stdin and exit with a chosen status, selected by flag, environment variable (PENNE_BACKEND / PENNE_LLI), config file and/or PATH default in random combinations, or the real lli. Oracle: exit 0 iff compilation (per the library on the same files) and, for build, the backend succeeded; exactly the backend dictated by flag > env > config > default ran and received the linked IR on stdin; no backend runs after a failed compilation; with --out-dir every module has its .pn.ll equal to the library's per-module IR (and accepted by llvm-as/opt on a sample); `run` shows `Output: <status>` unless --silent and passes the program's stdout (== reference interpreter) through; a failing compilation shows its first diagnostic's [Exxx] unless --silent, and with --color=never every report equals, line for line, the library's rendering of that diagnostic (multi-byte comments in one third of the invalid inputs); program output, including bytes that are not UTF-8, comes through byte for byte; a source file that is not UTF-8 is never compiled (15 cases); no ESC byte with --color=never; ASCII-only output with --arrows=ascii on ASCII sources. Plus core:/vendor: arguments with the repository examples. Non-trivial: >= 2 options, or several files, or a failing backend; distinct by (argv, env, files).".into()
 	}
 	fn assumptions(&self) -> Vec<String>
 	{
@@ -598,6 +722,6 @@ impl Check for C18
 	}
 	fn streams(&self) -> Vec<Box<dyn Stream>>
 	{
-		vec![Box::new(Invocations), Box::new(Included)]
+		vec![Box::new(Invocations), Box::new(Included), Box::new(InvalidEncoding)]
 	}
 }
